@@ -74,7 +74,8 @@ namespace
             }
             else if (prog == P_WAIT)
             {
-                // roles are mixed: some threads mostly wait, some mostly wake
+                // roles are mixed: some threads mostly wait, some mostly wake; a third of the runs use two wait queues
+                bool two_queues = r.chance(1, 3);
                 for (int t = 0; t < nt; t++)
                 {
                     bool mostly_wait = t == 0 ? true : (t == 1 ? false : r.chance(1, 2));
@@ -82,11 +83,12 @@ namespace
                     for (int k = 0; k < n; k++)
                     {
                         bool w = r.chance(mostly_wait ? 5 : 1, 6);
-                        if (w) p.ops.push_back({OP_ACT, t, 0, r.chance(1, 4) ? 1 : 0, 0});
+                        int64_t hq = two_queues ? (int64_t)r.below(2) : 0;
+                        if (w) p.ops.push_back({OP_ACT, t, 0, r.chance(1, 4) ? 1 : 0, hq});
                         else
                         {
                             int kind = r.chance(1, 5) ? 2 : (r.chance(1, 8) ? 3 : 1);
-                            p.ops.push_back({OP_ACT, t, kind, (int64_t)r.below(2), 0});
+                            p.ops.push_back({OP_ACT, t, kind, (int64_t)r.below(2), hq});
                         }
                     }
                 }
@@ -141,8 +143,9 @@ namespace
         long counter = 0, expected_counter = 0;
         int saved_depth[thr::MAXT];
         // P_WAIT
-        void *head = nullptr;
-        std::deque<int> mq;                 // model queue of parked waiter thread ids, front = next to wake
+        void *heads[2] = {nullptr, nullptr}; // two wait queues sharing the one system lock
+        std::deque<int> mqs[2];             // model queues of parked waiter thread ids, front = next to wake
+        int wait_head[thr::MAXT];           // which queue a thread is parking on / a wake addresses
         bool in_wait[thr::MAXT], enq[thr::MAXT], woken[thr::MAXT];
         long expect[thr::MAXT];
         int wait_prio[thr::MAXT];
@@ -163,6 +166,7 @@ namespace
         {
             Pending &pd = pend[tid];
             pd.computed = true;
+            std::deque<int> &mq = mqs[wait_head[tid]];
             if (mq.empty()) return;
             wakes_with_victim++;
             if (pd.all)
@@ -215,17 +219,20 @@ namespace
         }
         // reset run state
         owner = -1; odepth = 0; counter = 0; expected_counter = 0;
-        mq.clear();
+        mqs[0].clear();
+        mqs[1].clear();
         next_u = 1000; wakes_with_victim = 0; wake_raced = 0;
         tokens = 0; pushes_started = pushes_finished = pops_started = pops_finished = 0;
         popped.clear();
         for (int i = 0; i < thr::MAXT; i++)
         {
             in_wait[i] = enq[i] = woken[i] = finished[i] = false;
+            wait_head[i] = 0;
             expect[i] = 0; pend[i] = Pending(); nextseq[i] = 0; saved_depth[i] = 0; wait_prio[i] = 0;
             for (int j = 0; j < thr::MAXT; j++) lastseq_seen[i][j] = -1;
         }
-        head = prog == P_WAIT ? prog_head_new() : nullptr;
+        heads[0] = prog == P_WAIT ? prog_head_new() : nullptr;
+        heads[1] = prog == P_WAIT ? prog_head_new() : nullptr;
         q = prog == P_QUEUE ? prog_queue_new() : nullptr;
 
         std::vector<std::function<void()>> bodies;
@@ -246,8 +253,10 @@ namespace
                         int k = (int)mod(a.kind, 4);
                         if (k == 0)
                         {
+                            wait_head[t] = (int)mod(a.b, 2);
+                            if (wait_head[t]) probe("second_wait_queue");
                             thr::api_enter();
-                            prog_wait(head, (int)mod(a.a, 2));
+                            prog_wait(heads[wait_head[t]], (int)mod(a.a, 2));
                             thr::api_exit();
                         }
                         else if (k == 3)
@@ -255,8 +264,9 @@ namespace
                         else
                         {
                             long u = next_u++;
+                            wait_head[t] = (int)mod(a.b, 2);
                             thr::api_enter();
-                            prog_wake(head, k == 2, (int)mod(a.a, 2), u);
+                            prog_wake(heads[wait_head[t]], k == 2, (int)mod(a.a, 2), u);
                             thr::api_exit();
                         }
                     }
@@ -315,10 +325,14 @@ namespace
                     for (int t = 0; t < nt; t++)
                         if (!finished[t]) all = false;
                     if (all) break;
-                    long u = next_u++;
-                    thr::api_enter();
-                    prog_wake(head, 1, 1, u);
-                    thr::api_exit();
+                    for (int hq = 0; hq < 2; hq++)
+                    {
+                        long u = next_u++;
+                        wait_head[dt] = hq;
+                        thr::api_enter();
+                        prog_wake(heads[hq], 1, 1, u);
+                        thr::api_exit();
+                    }
                     stat("drains");
                 }
                 finished[dt] = true;
@@ -332,8 +346,8 @@ namespace
             {
                 // linearisation point of the park: first acquisition of the system lock inside the call
                 enq[tid] = true;
-                if (wait_prio[tid]) mq.push_front(tid);
-                else mq.push_back(tid);
+                if (wait_prio[tid]) mqs[wait_head[tid]].push_front(tid);
+                else mqs[wait_head[tid]].push_back(tid);
                 thr::note("model-enqueue T%d prio=%d", tid, wait_prio[tid]);
             }
             else if (pend[tid].active && !pend[tid].computed)
@@ -377,7 +391,7 @@ namespace
                     res.detail = "queue holds " + std::to_string(left) + " items, pushed " + std::to_string(pushes_finished) + " popped " + std::to_string(pops_finished);
                 }
             }
-            if (prog == P_WAIT && !mq.empty())
+            if (prog == P_WAIT && (!mqs[0].empty() || !mqs[1].empty()))
             {
                 res.violation = true;
                 res.sig = "C20/waiter-left-parked";
@@ -385,9 +399,9 @@ namespace
             }
         }
         // after an aborted run the structures may still reference frames of abandoned threads: leak them
-        if (head && !rr.violation) prog_head_delete(head);
+        if (heads[0] && !rr.violation) { prog_head_delete(heads[0]); prog_head_delete(heads[1]); }
         if (q && !rr.violation) prog_queue_delete(q);
-        head = q = nullptr;
+        heads[0] = heads[1] = q = nullptr;
         stat("sync_events", rr.steps);
         stat("decisions", rr.decisions);
         stat("context_switches", rr.switches);
@@ -490,9 +504,12 @@ extern "C"
         if (wrapped)
         {
             // the caller holds the system lock: the real list must have exactly the model's length
-            unsigned real = prog_head_size_locked(W->head);
-            if (real != W->mq.size())
-                fail("C20/queue-length", "wait queue holds %u nodes, model says %u parked waiters", real, (unsigned)W->mq.size());
+            for (int hq = 0; hq < 2; hq++)
+            {
+                unsigned real = prog_head_size_locked(W->heads[hq]);
+                if (real != W->mqs[hq].size())
+                    fail("C20/queue-length", "wait queue %d holds %u nodes, model says %u parked waiters", hq, real, (unsigned)W->mqs[hq].size());
+            }
             W->compute_victims(t);
         }
     }
